@@ -72,6 +72,12 @@ CLAIMED['C17'] = dict(tech='wrapper/core callee agreement over the call graph, f
          'create/from_counts share the conversion chain, and all 100+ panic sites of the binding\'s own bodies are discharged so argument errors are exceptions. Numerical equality is inherited from C01-C10, C14.',
     ref='DESIGN.md §4 C17')
 
+CLAIMED['C01'] = dict(tech='lane-dependence abstract interpretation of the SIMD kernels (vector = tuple of byte provenance terms, loops summarised on symbolic carried values), linear-form bookkeeping rules, dispatcher arm table',
+    text='Static (part): for the 4 SIMD scoring kernels every stored lane is shown to be Σ_j T_j[seq(row+j, c)] for its own column c (identity lane permutation after all shuffles/permutes), accumulators start at the '
+         'additive identity, table/sequence/result pointers advance by their own strides, the sequence row is the range element and the result row its position, all columns stored once; the scalar kernel, '
+         'the L+1-M bookkeeping of the 5 wrappers, the 6 index<->(row,col) sites, the 18 dispatcher arms and the K<=8 guard are matched. Floating-point rounding and the cfg-excluded NEON arm are not decided.',
+    ref='DESIGN.md §4 C01')
+
 NA = {
     'C11': 'numeric agreement of a tabulated distribution with the exact tail probability: quantifies over run-time floating-point values; no sound static argument in reach (DESIGN.md §6)',
     'C12': 'bounds computed probability ranges by exact tail probabilities at a granularity: run-time numerics, no structural necessary condition (DESIGN.md §6)',
